@@ -38,7 +38,7 @@ pub fn scenario<C: Coll>(c: &mut Ctx, _idx: u64, rng: &mut Rng, name: &str) {
     let n = if large { 60_000 } else { (*rng.pick(&[1usize, 3, 7, 8, 14, 28, 100, 1000])).min(space as usize / 2).max(1) };
     let pattern = if large { "fifo" } else { PATTERNS[rng.usize_below(PATTERNS.len())] };
     let steps: usize = if large {
-        if c.thorough() { 3_000_000 } else { 700_000 }
+        if c.thorough() { 6_000_000 } else { 1_500_000 }
     } else if c.is_miri() {
         300
     } else if c.thorough() {
